@@ -454,7 +454,8 @@ fn roundtrip(d: &DocSpec, ctx: &mut Ctx) {
         }
     };
     let ok = compare_picture(d, &src, &got, "roundtrip", ctx);
-    if (got.ice_mode == IceMode::Ice) != d.ice && d.fmt != Fmt::Tnd {
+    // blink / ice is a property of the file: a blink document does not come back in the engine's third ("unlimited") mode
+    if got.ice_mode != (if d.ice { IceMode::Ice } else { IceMode::Blink }) && d.fmt != Fmt::Tnd {
         ctx.violation(format!("diff:{}:roundtrip:ice-mode", d.fmt.ext()), json!({"doc": d.json(), "got": format!("{:?}", got.ice_mode)}));
     }
     // embedded fonts
@@ -948,8 +949,10 @@ fn resave(fmt: Fmt, desc: &str, bytes: &[u8], ctx: &mut Ctx) {
             if e.starts_with("PANIC") {
                 ctx.violation(format!("{}:resave", e.replace("PANIC ", "")), json!({"file": desc}));
             } else {
+                // the statement's second sentence: a file the loader accepts can be saved again in the same format
                 ctx.count("resave_writer_refused", 1);
-                ctx.count(&format!("resave_writer_refused:{}:{}", fmt.ext(), e.chars().take(70).collect::<String>()), 1);
+                let class: String = e.chars().filter(|c| !c.is_ascii_digit()).take(60).collect();
+                ctx.violation(format!("diff:{}:resave:writer-refuses-what-the-loader-accepted:{}", fmt.ext(), class.trim()), json!({"file": desc, "error": e}));
             }
             return;
         }
